@@ -13,7 +13,7 @@ TECHNIQUE = "exhaustive enumeration of request sets (every ordered sub-list of e
 RULE = (
     "one election with a complete feed (24 reporting units, outstanding units in several groups, passthrough units present) per estimator; every "
     "ordered non-empty sub-list of estimands {turnout, dem} (4), of interval levels {0.7, 0.9} (4) and of aggregate levels {postal_code, county_fips, "
-    "county_classification} (15), with and without the unit table: 480 runs each for nonparametric and gaussian, 120 for bootstrap (margin only); every ordered sub-list of the close "
+    "county_classification} (15), with and without the unit table: 480 runs each for nonparametric and gaussian, 120 for bootstrap (margin only); the historical client over every ordered estimand sub-list; every ordered sub-list of the close "
     "interval levels {0.9, 0.99, 0.995} for gaussian and bootstrap; "
     "a district-office election with levels {postal_code, district, county_fips}. Oracle: each cell has exactly one value over all runs that report it "
     "(compared on the repr of the double), and every table has exactly the key/category columns of the singleton request. non-trivial = the run "
@@ -57,6 +57,11 @@ def cases(tier, seed):
     # units put a breakpoint of the weighted quantile (k/200) between the fitted quantiles 0.008 and 0.012
     for alphas in _sublists([0.976, 0.984]):
         out.append({"pm": "gaussian", "office": "G", "election": "equal286", "estimands": ["turnout"], "alphas": alphas, "aggregates": ["postal_code", "county_fips", "unit"], "seed": seed})
+    # the historical client: every ordered sub-list of estimands, aggregate sub-lists
+    for pm in ("nonparametric", "gaussian"):
+        for est in _sublists(["turnout", "dem"]):
+            for lv in (["postal_code"], ["postal_code", "county_fips"], ["county_fips"]):
+                out.append({"pm": pm, "office": "G", "election": "historical", "estimands": est, "alphas": [0.7], "aggregates": lv, "seed": seed})
     hlevels = _sublists(["postal_code", "district", "county_fips"])
     for pm in ("nonparametric", "bootstrap") if tier == "quick" else ("nonparametric", "gaussian", "bootstrap"):
         for est in (_sublists(["turnout", "dem"]) if pm != "bootstrap" else [["margin"]]):
@@ -101,14 +106,64 @@ def _election(case):
     return units
 
 
+def _historical(case):
+    import json
+    import os
+    import shutil
+    import tempfile
+
+    from elexmodel.client import HistoricalModelClient
+
+    from . import c10
+
+    units = E.background(case["seed"], "G", 16, "AA2") + [E.make_probe(case["seed"], k, "nonrep0", loc) for k, loc in enumerate(["pop0", "pop1"])]
+    cfg = E.make_cfg(estimands=case["estimands"], pi_method=case["pm"], alphas=[0.7])
+    rc = E.raw_config(cfg)
+    rc[E.ELECTION_ID][0]["historical_election"] = [c10.HIST_ID]
+    hist_cfg = {c10.HIST_ID: [dict(rc[E.ELECTION_ID][0], historical_election=[])]}
+    baseline, feed = E.frames(units, cfg)
+    df = baseline.copy()
+    df["results_turnout"] = (df.baseline_turnout * 1.1).astype(int)
+    df["results_dem"] = (df.baseline_dem * 1.3).astype(int)
+    df["results_gop"] = (df.baseline_gop * 0.9).astype(int)
+    scratch = tempfile.mkdtemp(prefix="mc_c13_")
+    cwd0 = os.getcwd()
+    try:
+        os.chdir(scratch)
+        os.makedirs("config")
+        os.makedirs(f"data/{c10.HIST_ID}/G")
+        json.dump(rc, open(f"config/{E.ELECTION_ID}.json", "w"))
+        json.dump(hist_cfg, open(f"config/{c10.HIST_ID}.json", "w"))
+        df.to_csv(f"data/{c10.HIST_ID}/G/data_precinct.csv", index=False)
+        out = HistoricalModelClient().get_historical_evaluation(
+            feed, E.ELECTION_ID, "G", list(case["estimands"]), [0.7], 100, "precinct", aggregates=list(case["aggregates"]), pi_method=case["pm"], save_output=[],
+            features=[E.FEATURE], model_parameters={"fit_margin_outlier_model": False, "fit_turnout_outlier_model": False},
+        )
+        return {"ok": {k: E.table_to_obj(v) for k, v in out[c10.HIST_ID]["estimates"].items()}}
+    except Exception as e:
+        return {"error": [type(e).__name__, str(e)[:300]]}
+    finally:
+        os.chdir(cwd0)
+        shutil.rmtree(scratch, ignore_errors=True)
+
+
 def evaluate(case):
     cov = Counter()
+    if case.get("election") == "historical":
+        res = _historical(case)
+        pm = case["pm"]
+        cov["historical_runs"] += 1
+        return _cells(case, res, pm, cov)
     units = _election(case)
     pm = case["pm"]
     feats = ["baseline_normalized_margin"] if pm == "bootstrap" else ([] if case.get("election") else [E.FEATURE])
     mp = {"B": 10, "lambda_": 1.0} if pm == "bootstrap" else {}
     cfg = E.make_cfg(office=case["office"], pi_method=pm, estimands=case["estimands"], alphas=case["alphas"], aggregates=case["aggregates"], features=feats, model_parameters=mp)
     res = E.run_estimates(units, cfg)
+    return _cells(case, res, pm, cov)
+
+
+def _cells(case, res, pm, cov):
     if "error" in res:
         return {"violations": [{"sig": f"C13:run-raised:{pm}:{res['error'][0]}", "msg": f"{case}: {res['error']}"}], "cov": {}, "outcome": "error", "nontrivial": True, "data": {"cells": {}, "keycols": {}}}
     cells = {}
@@ -171,4 +226,4 @@ def post(cases, results, tier, seed):
     return {"violations": viols, "cov": dict(cov)}
 
 
-REQUIRED_COUNTERS = {"distinct_cells": 500}
+REQUIRED_COUNTERS = {"distinct_cells": 500, "historical_runs": 20}
